@@ -101,8 +101,12 @@ func getEnumMap(enumMap interface{}, typ reflect.Type) (map[string]interface{}, 
 		panic("enum function not passed a map")
 	}
 
+	// A value that goes by several names is written by the first of them in
+	// alphabetical order, whatever the order of the map.
 	for key, val := range eMap {
-		rMap[val] = key
+		if prev, ok := rMap[val]; !ok || key < prev {
+			rMap[val] = key
+		}
 	}
 	return eMap, rMap
 
